@@ -943,15 +943,10 @@ class SparseArray:
             ndim, has_bool = get_array_properties(index)
             if has_bool:
                 if ndim == 1: 
-                    if vd == 0:
-                        for i, j in enumerate(index):
-                            if j: rows[i][:] = value
-                    else:
-                        for i, j in enumerate(index):
-                            if j: rows[i][:] = value[i]
+                    rows = [rows[i] for i, j in enumerate(index) if j]
                 else:
                     self[index.nonzero() if hasattr(index, 'nonzero') else np.nonzero(index)] = value
-                return
+                    return
             elif ndim == 1:
                 rows = [rows[i] for i in index]
             elif index.__class__ is slice:
